@@ -89,6 +89,44 @@ def scenario(chk, idx):
     chk.nontrivial(["c07", idx])
 
 
+def big_rejected(chk, idx, size):
+    """one large tracefile with a single malformed record next to small well-formed ones: it is skipped as a whole,
+    whatever its size and wherever the bad record stands (report = report without it)"""
+    rng = chk.rng
+    root = vlib.scratch("c07_big%d" % idx)
+    small = [pipeline.make_info(rng, i, PATHS) for i in range(rng.randrange(1, 4))]
+    where = rng.choice(["start", "middle", "end"])
+    rec = lambda j: "SF:big/f%d.c\nFN:1,f%d\nFNDA:1,f%d\nDA:1,1\nDA:2,0\nDA:3,%d\nBRDA:2,0,0,1\nBRDA:2,0,1,-\nend_of_record\n" % (j, j, j, j)
+    nrec = size // len(rec(100000)) + 1
+    bad_at = {"start": 0, "middle": nrec // 2, "end": nrec - 1}[where]
+    parts = []
+    for j in range(nrec):
+        parts.append(rec(j) if j != bad_at else "SF:big/bad.c\nDA:x,1\nend_of_record\n")
+    big = ("TN:big\n" + "".join(parts)).encode()
+    ind = os.path.join(root, "in")
+    os.makedirs(os.path.join(ind, "d"), exist_ok=True)
+    for i, b in enumerate(small):
+        open(os.path.join(ind, "s%d.info" % i), "wb").write(b)
+    open(os.path.join(ind, "d", "big.info"), "wb").write(big)
+    branch = rng.random() < 0.7
+    threads = rng.choice([1, 2, 4])
+    parsed = vlib.run_impl("parse", [{"hex": b.hex(), "format": "info", "branch": branch} for b in small], chk.pid)
+    batches = [[[n, gen.cov_canon(c)] for n, c in r["ok"]] for r in parsed if "ok" in r]
+    rc, out, err = pipeline.run_cli([ind], threads, branch, timeout=60, cwd=root)
+    chk.count()
+    hist = {"small_inputs": [b.decode() for b in small], "big_input": "TN:big + %d records like %r, record %d replaced by 'SF:big/bad.c DA:x,1 end_of_record' (%d bytes)" % (nrec, rec(7), bad_at, len(big)),
+            "threads": threads, "branch": branch}
+    if rc != 0:
+        chk.violation(dict(hist, kind="oracle", clause="a rejected input must not change the exit status (got %s)" % rc, stderr=err[-600:]), tag="big")
+        return
+    why = report_oracle(pipeline.read_lcov_report(out), by_path(batches))
+    if why:
+        chk.violation(dict(hist, kind="oracle", clause="a %d-byte tracefile with one malformed record is skipped as a whole: %s" % (len(big), why)), tag="big")
+        return
+    chk.nontrivial(["c07-big", idx, len(big), where])
+    chk.dist["big_rejected_bytes"] = chk.dist.get("big_rejected_bytes", []) + [len(big)]
+
+
 def validate(chk):
     pend = chk._pending
     exprs = [vlib.app("run_pipeline", t, cap, False, items, labels_coq(labels)) for _, t, cap, items, labels, _, _ in pend]
@@ -123,6 +161,9 @@ def run(chk):
     n = 60 if chk.tier == "quick" else 1200
     for i in range(n):
         scenario(chk, i)
+    sizes = [70 << 10, (1 << 20) + 4096, (4 << 20) + 4096, 9 << 20] + ([] if chk.tier == "quick" else [(16 << 20) + 1, 33 << 20, 65 << 20])
+    for i, sz in enumerate(sizes):
+        big_rejected(chk, i, sz)
     okn = validate(chk)
     chk.cov["traces_validated_against_impl"] = okn
     chk.extra["distribution"] = chk.dist
@@ -130,6 +171,7 @@ def run(chk):
                        "injected fault or really malformed (rejected by parse_lcov), inputs that panic the worker outside or inside the result-map lock (one, many, all workers); "
                        "each run under a %d s limit: must terminate; a death implies a non-zero status; without deaths status 0 and the report equals the aggregation of the "
                        "accepted artifacts; the hook event log is scheduled into LTS labels and replayed by Coq (must be an execution ending in MExit with the same status). "
+                       "plus tracefiles of 70 KiB - 9 MiB (thorough: up to 65 MiB) with one malformed record at the start, middle or end, next to small well-formed inputs: skipped as a whole. "
                        "non-trivial = run whose trace reached validation; distinct by scenario" % LIMIT)
     chk.cov["trusted_base"] = ["Coq kernel; vm_compute for trace replay", "hooks H1-H3 in /repo (cfg mozilla_grcov_verif)", "Python event scheduler (output re-checked by Coq)",
                                "modelled, not verified: crossbeam channel FIFO/disconnect wake-up, Mutex poisoning, thread spawn/join, process::exit; OS scheduler"]
